@@ -178,7 +178,16 @@ func (s *Server) serve(ctx context.Context, listener net.Listener, handler Modbu
 			readTimeout:  s.ReadTimeout,
 			onErrorFunc:  onErrorFunc,
 		}
-		s.trackConn(c, true)
+		if !s.trackConn(c, true) {
+			// Shutdown has run after this connection was accepted: it is not served
+			if err := netConn.Close(); err != nil {
+				onErrorFunc(fmt.Errorf("connection.close error, err: %w", err))
+			}
+			if s.OnCloseConnFunc != nil {
+				s.OnCloseConnFunc(cCtx, netConn.RemoteAddr(), true)
+			}
+			continue
+		}
 		go func(ctx context.Context, conn *connection) {
 			defer func() {
 				if rec := recover(); rec != nil {
@@ -212,7 +221,9 @@ func (oc *onceCloseListener) close() {
 	oc.closeErr = oc.Listener.Close()
 }
 
-func (s *Server) trackConn(c *connection, isAdd bool) {
+// trackConn adds connection to (or removes from) active connections. Connection is not added, and false is
+// returned, when server is already shut down as Shutdown would not see this connection anymore
+func (s *Server) trackConn(c *connection, isAdd bool) bool {
 	// this is how http.Server does it
 	s.mu.Lock()
 	defer s.mu.Unlock()
@@ -221,12 +232,16 @@ func (s *Server) trackConn(c *connection, isAdd bool) {
 		s.activeConnections = make(map[*connection]struct{})
 	}
 	if isAdd {
+		if s.isShutdown.Load() {
+			return false
+		}
 		s.activeConnections[c] = struct{}{}
 		s.activeConnectionCount.Add(1)
 	} else {
 		delete(s.activeConnections, c)
 		s.activeConnectionCount.Add(-1)
 	}
+	return true
 }
 
 func (c *connection) handle(ctx context.Context) {
